@@ -126,6 +126,13 @@ func NewEnabledCheckConfig(
 	)
 }
 
+// NewDisabledCheckConfig returns a new disabled CheckConfig.
+//
+// See CheckConfig.Disabled for when a CheckConfig is disabled.
+func NewDisabledCheckConfig(fileVersion FileVersion) CheckConfig {
+	return newDisabledCheckConfig(fileVersion)
+}
+
 // NewEnabledCheckConfigForUseIDsAndCategories returns a new enabled CheckConfig for only the use IDs and categories.
 func NewEnabledCheckConfigForUseIDsAndCategories(
 	fileVersion FileVersion,
